@@ -33,14 +33,14 @@ ASSUMPTIONS = ['wf: name/message/details of a RaisedException, the fields of Rec
                'subclasses of int/float/str/bytes do not override methods; opaque objects are not equal to the Pending/Censored sentinels']
 TECHNIQUE = 'Coq proof over a hand-written executable model of objtypes.py/actions.py + differential cases (vm_compute) + real marshal + impl oracle'
 LEVEL_TEXT = ('Kernel-checked theorems about the model of encode_object/decode_object over the whole value universe V, any recursion fuel and '
-              'arbitrary library oracles: the encoded form of a well-formed value without subclass-str dict keys is marshalable (only exact '
+              'arbitrary library oracles: the encoded form of a well-formed value is marshalable (only exact '
               'None/bool/int/float/str, lists, tuples, str-keyed dicts) and nests at most 2*fuel+r+3 levels, so are action representations '
               'and to_json_obj bundles; '
               'encode(decode(encode v)) = encode v for every value whose datetimes lie at least a day inside the calendar, under two monitored '
-              'library facts. The two excluded cases are refuted by witnesses replayed on the implementation.')
+              'library facts. The excluded calendar edge is refuted by a witness replayed on the implementation.')
 LEVEL_NOTE = ('Kernel level: the real recursion limit and marshal depth limit are runtime behaviour, modelled by fuel and exercised by the link. '
-              'Findings on the unchanged tree: a dict whose key is an instance of a str subclass is encoded with that key object and '
-              'marshal.dumps refuses the reply; datetimes within 16 microseconds (or one zone offset) of the end of year 9999 encode to a '
+              'A dict whose key is an instance of a str subclass used to be encoded with that key object, which marshal.dumps refuses '
+              '(fixed in /repo f01e3d4, kept as a regression witness). Open finding: datetimes within 16 microseconds (or one zone offset) of the end of year 9999 encode to a '
               'timestamp that decodes to an OverflowError value.')
 
 FUEL = 200
@@ -86,7 +86,7 @@ def gen_values(ctx):
     [pv.record('T', 1), pv.recordset('T', (1, 2)), pv.recordset('T', objtypes.RecordList([3], sort_by='A'))],
     len, 1j, pv.BadRepr(), [pv.BadRepr()], {'a': pv.BadRepr()}, set([1]), frozenset([1]),
   ]
-  return out + fixed
+  return fixed + out        # the witnesses of all findings (open or fixed) are in `fixed`: tried first
 
 
 MALFORMED = [
@@ -371,8 +371,8 @@ def correspond_bundles(ctx, vals):
       try:
         marshal.loads(marshal.dumps(out, 2))
       except Exception as ex:
-        if not has_subclass_key(out):
-          ctx.violation('not-marshalable', 'marshal.dumps of a to_json_obj bundle failed: %s' % ex, {'bundle': repr(out)[:500]})
+        ctx.violation('marshal-strsub-key' if has_subclass_key(out) else 'not-marshalable',
+                      'marshal.dumps of a to_json_obj bundle failed: %s' % ex, {'bundle': repr(out)[:500]})
     except RecursionError:
       continue
     except Exception as ex:
